@@ -29,12 +29,20 @@ CHECKS = {
             "Same simulator; join()/join(timeout) results are compared with the completion state of earlier tasks at the return instant, stop()/start()/join() termination is decided by the simulator's deadlock and stall detector (virtual time makes hangs cost microseconds), workers must have terminated after stop(), lifecycle calls must be idempotent and never raise."),
     "C01": ("exploration", "4 C01", "deterministic simulation (fault-free configuration): configuration x schedule x segmentation search of the whole client/server stack, reference call log + JSON normalisation oracle",
             "The fault-free configuration of the full-system simulation: real ServerProxy/MultiCall clients, simulated byte-stream network with seeded segmentation and delay, real plain/pooled/bare-dispatcher servers over TCP, Unix and loopback, protocol versions 1.0/2.0 on both sides; every call has its own registered callable, so exactly-once invocation, argument fidelity, typed equality of the returned value and History == wire transcript are decided per call. The value dimension is sampled by the seeded generator; what the simulator adds is the configuration x schedule x segmentation product and exactly-once under pooled schedules."),
+    "C02": ("fault_enumeration", "4 C02", "deterministic simulation with in-flight damage: enumeration of truncation points (sender dies mid-body) and single-character corruption of a request corpus, reply-shape validator",
+            "The real plain / pooled server behind the simulated network, and the bare dispatcher, are fed every truncation (the sending peer half-closes after k body bytes while the declared Content-Length stays, which drives the server's short-read branch) and every single-character replacement of a fixed corpus of valid and structurally odd requests, then a healthy probe; oracle written from the property text: HTTP 200, body empty or JSON holding well-formed 1.0/2.0 response objects, errors with integer code and string message, server still serving. Exhaustive over the damage positions of the listed corpus; the corpus itself is a sample."),
     "C04": ("exploration", "4 C04", "deterministic simulation: schedule search of notification-pool workers vs request thread, wire oracle + drained call log",
             "Real dispatcher and servers with the notification pool absent or present (1-3 workers) and default / handler-level / instance-level custom dispatch functions; requests built by the client API and raw bodies for the shapes it cannot produce (id null, id '', batches with invalid entries); oracle: number of response objects equals the number of non-notification entries, no response object carries a notification's token, every executable notification is in the call log exactly once after the pools are drained, client notification calls return None, no worker is killed."),
     "C12": ("exploration", "4 C12", "deterministic simulation: concurrent clients x server threads x request-pool workers, lifecycle histories, client-death fault injection, differential sequential replay + deadlock detection",
             "Full system with 1-4 concurrent clients, plain / pooled (default and user pools of 1-4 workers) servers on TCP and Unix listeners, lifecycle histories {serve_forever, handle_request loop, never served, shutdown with requests in flight, double close} and clients that die in the middle of a request body; oracle: each wire reply equals the reply of the same request on a fresh dispatcher served alone, clients only see their own tokens, executions are neither lost nor duplicated, shutdown()/server_close() return (simulated deadlock / stall / livelock detector), listener closed and pool workers terminated afterwards."),
     "C13": ("exploration", "4 C13", "deterministic simulation: request histories and concurrent dispatcher threads, differential against a fresh server per request, Config snapshots",
             "Histories of 1.0/2.0 calls, notifications, batches, invalid and failing requests on one long-lived server (bare dispatcher driven by 1-4 concurrent threads, plain and pooled servers), default and raising custom dispatch functions, methods returning Fault objects; oracle: each reply equals the reply of a fresh server to the same request, explicit 1.0/own-form rule for valid requests, field-by-field snapshots of the server Config and config.DEFAULT before and after, and a seeded mutation fragment on Config.copy() in both directions."),
+    "C17": ("exploration", "4 C17", "deterministic simulation: wire observation at a recording peer, seeded segmentation of both directions, read-chunk knob (buggify), gzip/chunked peers",
+            "Real client against the recording raw peer (exact bytes on the wire: Content-Length vs body bytes, Content-Type, request target for TCP and unix+http URLs) with identity / gzip / chunked responses whose multi-byte characters straddle the client's read size under random segmentation; real servers fed raw UTF-8 bodies whose multi-byte characters straddle the read-chunk boundary (chunk clamped by a knob; ground truth without the knob is a real 10 MiB+ body, see DESIGN.md); CGI handler; unsupported schemes; a raw-UTF-8 JSON back-end drawn per run."),
+    "C18": ("exploration", "4 C18", "deterministic simulation: histories of nested header blocks with exits caused by injected transport faults, reference header stack at a recording peer",
+            "Generated histories of constructor headers and 0-4 nested _additional_headers blocks (names in random letter case incl. protected ones and User-Agent, non-string values) containing calls / notifications / batches; some calls are hit by an injected transport fault (refuse, reset, 4xx/5xx, truncated body, close before reply) so the blocks are left through the exception the fault caused; oracle: header lines recorded by the peer equal the reference stack's effective headers (most recent definition wins case-insensitively, no duplicates, protected names untouched, configured User-Agent unless pushed) and the transport's stack after every exit equals the one before entering."),
+    "C19": ("fault_enumeration", "4 C19", "deterministic simulation: exhaustive enumeration of transport-fault scripts up to a bound at a scripted raw peer, plus seeded long scripts",
+            "Real ServerProxy/Transport/UnixTransport against the scripted raw peer; every fault script up to length 3 (quick) / 4 (thorough) over the property's alphabet x {TCP, Unix} x {EOF, reset, EPIPE on a write to a closed peer} is executed, then seeded scripts of length 1-12 with random segmentation; oracle per call: own token or an exception, TransportError fields for non-200 replies, never a value without a healthy reply to its own request, at most one failing call once the script is exhausted and none after a success."),
     "C16": ("exploration", "4 C16", "deterministic simulation: line-level interleaving search of set_callback/execute/done/result, history oracle",
             "Generated scripts from 2-4 threads on one FutureResult with pre-emption at every source line of threadpool.py; per-registration callback counts and arguments, done()/result() observations ordered against task completion, exact virtual time of result(timeout) expiry, containment of callback exceptions."),
 }
